@@ -168,6 +168,8 @@ def exhaustive_quanti(tier, seed):
     total = len(dom)
     if tier == 'quick':
         dom = rng.sample(dom, 2500)
+    elif len(dom) > 25000:
+        dom = rng.sample(dom, 25000)
     specs = []
     for ms, nnan, mf in dom:
         cls = rng.choice(['ContinuousDiscretizer', 'QuantitativeDiscretizer'])
